@@ -72,6 +72,54 @@ func ccelMeasured(log []byte) (map[uint32][48]byte, error) {
 	return regs, nil
 }
 
+// ccelEventsEnd returns the offset just behind the last event of the log (where the padding starts).
+func ccelEventsEnd(log []byte) (int, error) {
+	if len(log) < 32 {
+		return 0, fmt.Errorf("log too short")
+	}
+	evSize := binary.LittleEndian.Uint32(log[28:32])
+	hdr := log[32 : 32+evSize]
+	nAlg := binary.LittleEndian.Uint32(hdr[24:28])
+	sizes := map[uint16]int{}
+	for i := uint32(0); i < nAlg; i++ {
+		o := 28 + 4*i
+		sizes[binary.LittleEndian.Uint16(hdr[o:])] = int(binary.LittleEndian.Uint16(hdr[o+2:]))
+	}
+	if nAlg != 1 || sizes[0x000C] != 48 {
+		return 0, fmt.Errorf("log does not use SHA-384 alone")
+	}
+	off := 32 + int(evSize)
+	for off+12 <= len(log) {
+		idx := binary.LittleEndian.Uint32(log[off:])
+		typ := binary.LittleEndian.Uint32(log[off+4:])
+		cnt := binary.LittleEndian.Uint32(log[off+8:])
+		if idx == 0xffffffff || (idx == 0 && typ == 0 && cnt == 0) {
+			return off, nil
+		}
+		o := off + 12
+		for i := uint32(0); i < cnt; i++ {
+			o += 2 + sizes[binary.LittleEndian.Uint16(log[o:])]
+		}
+		o += 4 + int(binary.LittleEndian.Uint32(log[o:]))
+		off = o
+	}
+	return off, nil
+}
+
+// ccelEvent encodes one TCG_PCR_EVENT2 with a single SHA-384 digest.
+func ccelEvent(mr, typ uint32, digest, data []byte) []byte {
+	b := make([]byte, 12, 12+50+4+len(data))
+	binary.LittleEndian.PutUint32(b[0:], mr)
+	binary.LittleEndian.PutUint32(b[4:], typ)
+	binary.LittleEndian.PutUint32(b[8:], 1)
+	b = append(b, 0x0C, 0x00)
+	b = append(b, digest...)
+	var l [4]byte
+	binary.LittleEndian.PutUint32(l[:], uint32(len(data)))
+	b = append(b, l[:]...)
+	return append(b, data...)
+}
+
 func TestC18(t *testing.T) {
 	replayDir(t, "C18")
 	ccel := readRepoFile(t, "testing/testdata/ccel/ccel_data.dat")
@@ -110,6 +158,7 @@ func TestC18(t *testing.T) {
 		w.HonestCollateral() // collateral matching the sample's TD body, for the collateral / revocation levels
 		return w
 	}
+	logInUse := ccel
 	parse := func(w *gen.World, raw []byte, nonceUsed []byte, pol func(*validate.Options), vopt func(*verify.Options)) (any, gen.Verdict) {
 		opts := rtmr.TdxDefaultOpts(nonceUsed)
 		opts.Verification = w.Options(gen.LvlBase, w.NewGetter(), nil)
@@ -129,7 +178,7 @@ func TestC18(t *testing.T) {
 		var st any
 		gen.Eval()
 		v := gen.Call(func() error {
-			s, err := rtmr.ParseCcelWithTdQuote(ccel, table, m, &opts)
+			s, err := rtmr.ParseCcelWithTdQuote(logInUse, table, m, &opts)
 			if s != nil {
 				st = s
 			}
@@ -257,6 +306,85 @@ func TestC18(t *testing.T) {
 				st, v := parse(w, q.Encode(), nonce, nil, nil)
 				gen.NonTrivial("rtmr-swap", r, r2)
 				if !expectBlocked(t, "rtmr-registers-exchanged", fmt.Sprintf("RTMR%d and RTMR%d exchanged (re-signed)", r, r2), st, v) {
+					return
+				}
+			}
+		}
+	})
+
+	// The sample log measures RTMR0..2 only. With events for RTMR3 (CC measurement register 4) appended - anything that
+	// extends RTMR3 may log to the CCEL - the fourth register is a measured one as well: a state is returned for the
+	// quote whose RTMR3 is the replay of those events, and for no other RTMR3 value.
+	gen.Direct(t, "log-with-rtmr3-events", func(t *testing.T) {
+		defer func() { logInUse = ccel }()
+		end, err := ccelEventsEnd(ccel)
+		if err != nil {
+			gen.HarnessError(t, "own event-log reader failed: %v", err)
+		}
+		s := gen.NewStream(gen.Seed()+18, "c18rtmr3")
+		for n := 1; n <= 3; n++ {
+			var events []byte
+			var reg [48]byte
+			for k := 0; k < n; k++ {
+				data := s.Bytes(4 + s.Intn(40))
+				d := sha512.Sum384(data)
+				events = append(events, ccelEvent(4, 0x00000006, d[:], data)...) // EV_EVENT_TAG
+				reg = extendChain(reg, d[:])
+			}
+			log2 := append(append(append([]byte{}, ccel[:end]...), events...), ccel[end:]...)
+			if regs2, err := ccelMeasured(log2); err != nil || regs2[4] != reg {
+				gen.HarnessError(t, "own replay of the extended log does not give the expected RTMR3: %v", err)
+			}
+			logInUse = log2
+			w := mkWorld(gen.Seed() + uint64(40+n))
+			w.Q.Rtmr[3] = reg
+			w.Build()
+			st, v := parse(w, w.Raw, nonce, nil, nil)
+			if v.Panicked() {
+				gen.Fail(t, gen.Violation{Key: "panic@" + gen.PanicSite(v.Stack), Oracle: "returns a state or an error", Detail: v.Panic, Replay: map[string]any{"kind": "ccel", "class": "rtmr3-events"}})
+				return
+			}
+			positive := st != nil && v.Accepted()
+			gen.Class(fmt.Sprintf("rtmr3-events:matching-quote-gets-a-state=%v", positive))
+			if !positive {
+				// the library behind the extraction may not accept such a log at all; the blocked cases below still hold
+				gen.Sample("rtmr3-events", fmt.Sprintf("%d RTMR3 events, matching quote: %s", n, v))
+			}
+			cases := map[string][48]byte{"all-zero (the sample's RTMR3)": {}, "digest-not-extended": sha512.Sum384(events), "value-of-RTMR2": w.Q.Rtmr[2]}
+			for _, bit := range []int{0, 7, 191, 383} {
+				f := reg
+				f[bit/8] ^= 1 << uint(bit%8)
+				cases[fmt.Sprintf("bit-%d-flipped", bit)] = f
+			}
+			if n > 1 {
+				var one [48]byte
+				first := events[:len(events)/n]
+				_ = first
+				cases["replay-of-all-but-the-last-event"] = func() [48]byte {
+					r := one
+					off := 0
+					for k := 0; k < n-1; k++ {
+						// each event: 12 bytes header, 2+48 digest, 4+len data
+						dl := int(binary.LittleEndian.Uint32(events[off+12+50:]))
+						r = extendChain(r, events[off+14:off+14+48])
+						off += 12 + 50 + 4 + dl
+					}
+					return r
+				}()
+			}
+			for name, val := range cases {
+				if val == reg {
+					continue
+				}
+				q := w.Q.Clone()
+				q.Rtmr[3] = val
+				gen.SignBody(q, w.AttKey)
+				st, v := parse(w, q.Encode(), nonce, nil, nil)
+				desc := fmt.Sprintf("log with %d RTMR3 events, quote's RTMR3 is %s (re-signed)", n, name)
+				if positive {
+					gen.NonTrivial("rtmr3", n, name)
+				}
+				if !expectBlocked(t, "rtmr3-differs-from-the-replay-of-its-events", desc, st, v) {
 					return
 				}
 			}
@@ -392,6 +520,43 @@ func TestC18(t *testing.T) {
 				st, v := parse(w2, raw, nonce, nil, func(o *verify.Options) { *o = *w2.Options(gen.LvlCRL, w2.NewGetter(), nil) })
 				gen.NonTrivial("gate1-collateral", fname, forged)
 				if !expectBlocked(t, "verification-fault:"+fname, fmt.Sprintf("%s with revocation checking on, body forged=%v", fname, forged), st, v) {
+					return
+				}
+			}
+		}
+		// the revocation faults again, with the lists in other legal encodings: issuer name spelled with UTF8String
+		// values (it prints like the certificate's PrintableString name), no CRL number, serial numbers shared across
+		// issuers; each encoding first with nothing revoked (control: a state), then with the revocation (blocked)
+		for _, enc := range []string{"crl-issuer-name-as-utf8", "crl-without-number", "serials-shared-across-issuers"} {
+			for _, fname := range []string{"none", "leaf-revoked", "intermediate-revoked", "tcb-signer-revoked"} {
+				w2 := mkWorld(gen.Seed() + 10)
+				switch enc {
+				case "crl-issuer-name-as-utf8":
+					w2.CRLIssuerUTF8 = true
+				case "crl-without-number":
+					w2.CRLNoNumber = 3
+				default:
+					w2.CrossIssuerSerials = true
+				}
+				var f gen.Fault
+				for _, c := range gen.Faults {
+					if c.Name == fname {
+						f = c
+					}
+				}
+				f.ApplyPre(w2)
+				w2.Build()
+				f.ApplyPost(w2)
+				st, v := parse(w2, w2.Raw, nonce, nil, func(o *verify.Options) { *o = *w2.Options(gen.LvlCRL, w2.NewGetter(), nil) })
+				if fname == "none" {
+					if st == nil || !v.Accepted() {
+						gen.Fail(t, gen.Violation{Key: "control-blocked:" + enc, Oracle: "control: honest revocation lists in another legal encoding do not block the state", Detail: v.String(), Replay: map[string]any{"kind": "ccel", "class": "control"}})
+						return
+					}
+					continue
+				}
+				gen.NonTrivial("gate1-crl-encoding", enc, fname)
+				if !expectBlocked(t, "verification-fault:"+fname+":"+enc, fmt.Sprintf("%s, lists encoded as %s, revocation checking on", fname, enc), st, v) {
 					return
 				}
 			}
